@@ -7,8 +7,8 @@
    constraint, plus G_later (a penalty does not read the ancillas of constraints added after it).
    C08_one_constraint discharges all of them for a PCBO holding an objective and one comparison constraint;
    C08_reduced continues through degree reduction (C01) and convert_solution. *)
-From QV.Model Require Import Base Matrix Arith Expr Extrema Sat PCBO Convert Reduce.
-From QV.Proofs Require Import BaseProofs KeyProofs ArithProofs InvProofs ConvertProofs PenaltyArith PCBOProofs ReduceProofs WorkflowProofs WorkflowSeq.
+From QV.Model Require Import Base Matrix Arith Expr Extrema Sat PCBO Convert PCSO Reduce.
+From QV.Proofs Require Import BaseProofs KeyProofs ArithProofs InvProofs ConvertProofs PenaltyArith PCBOProofs PCSOProofs ReduceProofs WorkflowProofs WorkflowSeq.
 Open Scope Q_scope.
 
 Theorem C08_abstract : forall (f : env -> Q) (n : nat) (G : nat -> env -> Q) (lam : nat -> Q) (R : nat -> env -> Prop)
@@ -74,6 +74,20 @@ Theorem C08_sequence : forall cs m m' W x0 xs,
   eval xs (tm m') == f xs.
 Proof. exact workflow_seq. Qed.
 Print Assumptions C08_sequence.
+
+(* the same for a PCSO: any number of spin comparison constraints, spin assignments of variables and ancilla spins *)
+Theorem C08_sequence_spin : forall cs m m' W z0 zs,
+  run_ok_S m cs = Ok m' -> kd m = KPcso -> no_anc (tm m) -> Forall call_ok_S cs ->
+  let f := fun z => eval z (tm m) in
+  (forall z z', spin_env z -> spin_env z' -> f z - f z' <= W) ->
+  (forall c, In c cs -> W < cc_lam c) ->
+  spin_env z0 -> (forall c, In c cs -> cR c z0) ->
+  spin_env zs -> (forall z, spin_env z -> eval zs (tm m') <= eval z (tm m')) ->
+  (forall c, In c cs -> cR c zs) /\
+  (forall z, spin_env z -> (forall c, In c cs -> cR c z) -> f zs <= f z) /\
+  eval zs (tm m') == f zs.
+Proof. exact workflow_seq_S. Qed.
+Print Assumptions C08_sequence_spin.
 
 (* ... continued through any degree reduction of the constrained model and convert_solution; the bookkeeping invariant of the
    objective model (true of every model built by the constructor and the C14 edits) is all that is assumed about it *)
